@@ -349,6 +349,13 @@ def put {V : Type} (lt : Key → Key → Bool) (kvs : List (Key × V)) (k : Key)
 bytes.Compare), expressed on the encoded key: unsigned big-endian order -/
 def ltUnsigned (a b : Key) : Bool := Bits.bitsToNat a < Bits.bitsToNat b
 
+/-- `bytes.Compare(a, b) < 0` (Compare of the BitsN key types, on the Go byte arrays) -/
+def ltBytes : List UInt8 → List UInt8 → Bool
+  | [], [] => false
+  | [], _ :: _ => true
+  | _ :: _, [] => false
+  | a :: as, b :: bs => decide (a < b) || (a == b && ltBytes as bs)
+
 /-- Compare of IntN: two's complement numeric order -/
 def ltSigned (a b : Key) : Bool := Bits.bitsToInt a < Bits.bitsToInt b
 
@@ -414,6 +421,38 @@ def toCell (pay : V → List Bool × List Cell) : Nat → HTree V → Cell
     Cell.ordinary (l.enc m) [toCell pay (m - l.bits.length - 1) lo, toCell pay (m - l.bits.length - 1) hi]
 
 end HTree
+
+/-! ## The typed layer: Go key values and the two parallel slices -/
+
+/-- tlb.UintN.MarshalTLB = WriteUint(uint64(u), n): the low `n` bits, silently (a value outside 0..2^n−1 is truncated) -/
+def encUintKey (n : Nat) (v : Nat) : Outcome Key := .ok (Bits.natToBits n v)
+
+/-- tlb.IntN.MarshalTLB = WriteInt(int64(u), n): width 1 accepts only 0 and −1 (else an error); width ≥ 2 writes the
+sign bit and the low n−1 bits of the value (two's complement of the magnitude for negatives) — values outside
+−2^(n−1)..2^(n−1)−1 are truncated silently -/
+def encIntKey (n : Nat) (v : Int) : Outcome Key :=
+  if n = 0 then .err "integer can't be zero size"
+  else if n = 1 then
+    (if v = -1 then .ok [true] else if v = 0 then .ok [false] else .err "bit length is too small")
+  else .ok (decide (v < 0) :: Bits.natToBits (n - 1) (v % (2 ^ (n - 1) : Int)).toNat)
+
+/-- Hashmap.MarshalTLB on the two slices as Go keeps them (`NewHashmap` may be given slices of different lengths):
+fewer values than keys is an error, surplus values are ignored, no values writes nothing -/
+def marshalSlices {V : Type} (C : Codec V) (keySize : Nat) (keys : List Key) (values : List V) : Outcome Cell :=
+  if values.length < keys.length then .err "hashmap has more keys than values"
+  else if values.isEmpty then .ok (Cell.ordinary [] [])
+  else encodeMap C (maxKeyLen (keys.zip values) + 1) (sortKV (keys.zip values)) keySize
+
+/-- HashmapE.MarshalTLB on the two slices: `Exists` is decided by the keys -/
+def marshalSlicesE {V : Type} (C : Codec V) (keySize : Nat) (keys : List Key) (values : List V) : Outcome Cell :=
+  if keys.isEmpty then .ok (Cell.ordinary [false] [])
+  else match marshalSlices C keySize keys values with
+    | .ok r => .ok (Cell.ordinary [true] [r])
+    | e => e
+
+/-- Items() on the two slices: `h.values[i]` for every key index — an index panic when values are missing -/
+def itemsSlices {V : Type} (keys : List Key) (values : List V) : Outcome (List (Key × V)) :=
+  if values.length < keys.length then .panic "index out of range" else .ok (keys.zip values)
 
 /-! ## SPEC: dictionaries inside Merkle proofs — some subtrees replaced by pruned-branch cells -/
 
